@@ -451,8 +451,10 @@ def resolveExternal (s : Engine) (n : Nat) : Option Nat :=
   | some r => if r.ext == 0 then none else some r.ext
   | none => none
 
-/-- exhaustive vector search: the nodes that have a vector in the index -/
-def vecNodes (s : Engine) : List Nat := s.vecs.map (·.1)
+/-- GraphEngine::search_vector with k ≥ everything: the nodes that have a vector in the index, minus
+    the nodes a published run tombstones (fix b85f233: there is no deletion path into the HNSW index,
+    the hits of tombstoned nodes are dropped after the search) -/
+def vecNodes (s : Engine) : List Nat := (s.vecs.map (·.1)).filter (fun n => !isTombNode s.runs n)
 
 end Engine
 
